@@ -129,6 +129,21 @@ static int conv(const char *in, char **out) {
 }
 #ifdef HAVE_LIBIDN2
 int __wrap_idn2_to_ascii_8z(const char *input, char **output, int flags) { g_conv_flags = flags; int r = conv(input, output); g_conv_flags = IDN2_NONTRANSITIONAL; return r; }
+/* the other public doors to the same converter (idn2_to_ascii_8z is idn2_lookup_u8 with the input-normalisation flag added): a library that goes
+ * through one of them must meet the same environment - injected answers, ledger-tracked output - or the fault checks would pass vacuously */
+extern int __real_idn2_lookup_u8(const uint8_t *src, uint8_t **lookupname, int flags);
+extern int __real_idn2_lookup_ul(const char *src, char **lookupname, int flags);
+extern int __real_idn2_to_ascii_lz(const char *input, char **output, int flags);
+#define OTHER_DOOR(call) do { g_conversions++; \
+    if (g_inject_armed) { g_inject_armed = 0; if (g_inject_buf && out) { char *b = __wrap_malloc(16); strcpy(b, "injected.buffer"); *out = b; } return g_inject_code; } \
+    char *tmp = NULL; int saved = g_track; g_track = 0; int r = call; g_track = saved; \
+    if (tmp) { size_t l = strlen(tmp) + 1; char *b = __wrap_malloc(l); memcpy(b, tmp, l); if (out) *out = b; g_track = 0; idn2_free(tmp); g_track = saved; } \
+    return r; } while (0)
+int __wrap_idn2_lookup_u8(const uint8_t *src, uint8_t **lookupname, int flags) { char **out = (char **)lookupname; OTHER_DOOR(__real_idn2_lookup_u8(src, (uint8_t **)&tmp, flags)); }
+int __wrap_idn2_lookup_ul(const char *src, char **out, int flags) { OTHER_DOOR(__real_idn2_lookup_ul(src, &tmp, flags)); }
+int __wrap_idn2_to_ascii_lz(const char *src, char **out, int flags) { OTHER_DOOR(__real_idn2_to_ascii_lz(src, &tmp, flags)); }
+/* idn2_free() is the documented way to release the converter's output: it has to reach the ledger like free() does */
+void __wrap_idn2_free(void *p) { if (g_track) __wrap_free(p); else { extern void __real_idn2_free(void *); __real_idn2_free(p); } }
 #endif
 #ifdef HAVE_LIBIDN
 int idna_to_ascii_lz(const char *input, char **output, int flags) { (void)flags; return conv(input, output); }
